@@ -268,6 +268,15 @@ def gen_case(rng):
     return {"spec": spec, "settings": settings, "kind": kind}
 
 
+VALUE_POOL = {
+    "int": INT_POOL, "posint": [1, 2, 5, 10**12, 77], "bool": [True, False], "str": LOOKALIKE, "optint": [None] + INT_POOL[:5],
+    "listint": [[], [1], [-1, 2, 30], [10**20]], "liststr": [[], [""], ["1", "true", "null"], [" padded ", "a: b", "#x", "[1]"]],
+    "dictint": [{}, {"a": 1}, {"a": 1, "b c": -2}, {"1": 1, "true": 2, "null": 3}], "lit": LIT_MEMBERS, "enum": ["red", "blue", "green"],
+    "litint": [1, 2], "any": [None, True, False, 0, -3, 12, [1, 2], [], [True, None], {"a": 1}, {}],
+    "tupint": [[0, 1], [-5, 10**20]], "tupvar": [[], [1], [3, 2, 1]],
+}
+
+
 def exhaustive_single():
     """every hint x every pool value (valid and wrong) x key depth 1-3, single-argument settings (thorough tier)"""
     out = []
@@ -512,6 +521,16 @@ def all_strs(v):
     return []
 
 
+def looks_like_list(t):
+    """does the text read as a list (judged with PyYAML itself, not with the code under test)"""
+    import yaml
+
+    try:
+        return isinstance(yaml.safe_load(t), list)
+    except Exception:  # noqa: BLE001
+        return t.strip().startswith(("[", "-"))
+
+
 def skip_reason(ch, case):
     """channels that cannot carry the case for reasons outside the property"""
     settings = case["settings"]
@@ -535,6 +554,8 @@ def skip_reason(ch, case):
             if a is not None and a.get("nargs") is not None:
                 if not (isinstance(v, list) and len(v) == 1):
                     return "only for list-valued options given exactly one item"
+                if looks_like_list(text_of(v[0])):
+                    return "the bare item's text is itself the text of a list (ambiguous)"
                 ok = True
         if not ok:
             return "only for list-valued options given exactly one item"
